@@ -16,6 +16,7 @@ static void mk(mjData* d, int s) {
   d->qacc_warmstart = arr(M.nv, s+5); d->ctrl = arr(M.nu, s+6); d->qfrc_applied = arr(M.nv, s+7);
   d->xfrc_applied = arr(6*M.nbody, s+8); d->mocap_pos = arr(3*M.nmocap, s+10); d->mocap_quat = arr(4*M.nmocap, s+11);
   d->userdata = arr(M.nuserdata, s+12); d->plugin_state = arr(M.npluginstate, s+13);
+  d->qacc = arr(M.nv, s+14); d->act_dot = arr(M.na, s+15); d->tree_asleep = calloc(4, sizeof(int));
   d->eq_active = calloc(M.neq + 1, 1); for (int i = 0; i < M.neq; i++) d->eq_active[i] = (s + i) & 1;
 }
 // bounded stand-in: for EVERY pair dstsig subset-of srcsig (3^14 pairs) on one model with all sizes > 0 and distinct:
@@ -66,8 +67,111 @@ def bounded_extract(chk):
                      detail='%d of %d signature pairs differ from mj_getState with the sub-signature' % (bad, n.value))
 
 
+def gen_reference_c():
+    """reference (de)serialiser generated from the documented component TABLE (independent of engine_support.c)."""
+    T = state.TABLE
+    lines = ['static int ref_size(int sig) { int n = 0;']
+    for b, f, ln, kind in T:
+        lines.append('  if (sig & (1 << %d)) n += %s;' % (b, ln.replace('m.', 'M.')))
+    lines.append('  return n; }')
+    lines.append('static void ref_get(const mjData* d, mjtNum* s, int sig) { int a = 0;')
+    for b, f, ln, kind in T:
+        L = ln.replace('m.', 'M.')
+        if kind == 'scalar':
+            lines.append('  if (sig & (1 << %d)) s[a++] = d->time;' % b)
+        else:
+            lines.append('  if (sig & (1 << %d)) { for (int k = 0; k < %s; k++) s[a + k] = d->%s[k]; a += %s; }' % (b, L, f, L))
+    lines.append('}')
+    lines.append('static int same_comp(const mjData* x, const mjData* y, int b) {')
+    for b, f, ln, kind in T:
+        L = ln.replace('m.', 'M.')
+        if kind == 'scalar':
+            lines.append('  if (b == %d) return x->time == y->time;' % b)
+        else:
+            lines.append('  if (b == %d) { for (int k = 0; k < %s; k++) if (x->%s[k] != y->%s[k]) return 0; return 1; }' % (b, L, f, f))
+    lines.append('  return 1; }')
+    return '\n'.join(lines)
+
+
+NATIVE_RUN = r'''
+// harness-only definition (sleep bookkeeping is irrelevant to what is checked here)
+void mj_updateSleep(const mjModel* m, mjData* d) { (void)m; (void)d; }
+
+// native contract run: ALL 2^14 signatures on one small model, spec = reference serialiser generated from the documented table
+int vf_sig = -1; char vf_what[128];
+static int fail(const char* w, int sig) { vf_sig = sig; snprintf(vf_what, sizeof vf_what, "%s", w); return 1; }
+int vf_contract_run(void) {
+  memset(&M, 0, sizeof M);
+  M.nq = 3; M.nv = 2; M.na = 1; M.nhistory = 4; M.nu = 2; M.nbody = 2; M.neq = 3; M.nmocap = 1; M.nuserdata = 2; M.npluginstate = 3;
+  int full = (1 << mjNSTATE) - 1, nmax = ref_size(full);
+  mjtNum* a = calloc(nmax + 4, sizeof(mjtNum)); mjtNum* r = calloc(nmax + 4, sizeof(mjtNum));
+  static mjData A, B, B0, C;
+  for (int sig = 0; sig <= full; sig++) {
+    mk(&A, 1); mk(&B, 50); mk(&B0, 50); mk(&C, 50);
+    if (mj_stateSize(&M, sig) != ref_size(sig)) return fail("mj_stateSize != sum of selected component sizes", sig);
+    for (int i = 0; i < nmax + 4; i++) { a[i] = -7; r[i] = -7; }
+    mj_getState(&M, &A, a, sig); ref_get(&A, r, sig);
+    for (int i = 0; i < nmax + 4; i++) if (a[i] != r[i]) return fail("mj_getState differs from the documented layout (or writes outside [0,stateSize))", sig);
+    mj_setState(&M, &B, a, sig);
+    mj_copyState(&M, &A, &C, sig);
+    for (int b = 0; b < mjNSTATE; b++) {
+      if (sig & (1 << b)) { if (!same_comp(&B, &A, b)) return fail("mj_setState(mj_getState(d)) does not restore a selected component", sig);
+                            if (!same_comp(&C, &A, b)) return fail("mj_copyState does not copy a selected component", sig); }
+      else { if (!same_comp(&B, &B0, b)) return fail("mj_setState modifies a component that is not selected", sig);
+             if (!same_comp(&C, &B0, b)) return fail("mj_copyState modifies a component that is not selected", sig); }
+    }
+  }
+  // keyframes: store d into key k, load it back into a different mjData
+  M.nkey = 3;
+  M.key_time = arr(M.nkey, 20); M.key_qpos = arr(M.nkey*M.nq, 21); M.key_qvel = arr(M.nkey*M.nv, 22); M.key_act = arr(M.nkey*M.na, 23);
+  M.key_mpos = arr(M.nkey*3*M.nmocap, 24); M.key_mquat = arr(M.nkey*4*M.nmocap, 25); M.key_ctrl = arr(M.nkey*M.nu, 26);
+  for (int k = 0; k < M.nkey; k++) {
+    mk(&A, 7 + k);
+    mj_setKeyframe(&M, &A, k);
+    if (M.key_time[k] != A.time) return fail("mj_setKeyframe: time", k);
+    for (int j = 0; j < M.nq; j++) if (M.key_qpos[k*M.nq + j] != A.qpos[j]) return fail("mj_setKeyframe: qpos", k);
+    for (int j = 0; j < 4*M.nmocap; j++) if (M.key_mquat[k*4*M.nmocap + j] != A.mocap_quat[j]) return fail("mj_setKeyframe: mocap_quat", k);
+    for (int j = 0; j < 3*M.nmocap; j++) if (M.key_mpos[k*3*M.nmocap + j] != A.mocap_pos[j]) return fail("mj_setKeyframe: mocap_pos", k);
+  }
+  // load key k into a dirty mjData: time/qpos/qvel/act/mocap/ctrl must equal row k of the key arrays
+  M.opt.timestep = 0.01; M.eq_active0 = calloc(M.neq + 1, 1);
+  M.dof_bodyid = calloc(M.nv + 1, sizeof(int)); M.D_rownnz = calloc(M.nv + 1, sizeof(int)); M.B_rownnz = calloc(M.nbody + 1, sizeof(int));
+  M.D_rowadr = calloc(M.nv + 1, sizeof(int)); M.B_rowadr = calloc(M.nbody + 1, sizeof(int));
+  for (int k = 0; k < M.nkey; k++) {
+    mk(&B, 90 + k);
+    mj_resetDataKeyframe(&M, &B, k);
+    if (B.time != M.key_time[k]) return fail("mj_resetDataKeyframe: time", k);
+    for (int j = 0; j < M.nq; j++) if (B.qpos[j] != M.key_qpos[k*M.nq + j]) return fail("mj_resetDataKeyframe: qpos", k);
+    for (int j = 0; j < M.nv; j++) if (B.qvel[j] != M.key_qvel[k*M.nv + j]) return fail("mj_resetDataKeyframe: qvel", k);
+    for (int j = 0; j < M.na; j++) if (B.act[j] != M.key_act[k*M.na + j]) return fail("mj_resetDataKeyframe: act", k);
+    for (int j = 0; j < 3*M.nmocap; j++) if (B.mocap_pos[j] != M.key_mpos[k*3*M.nmocap + j]) return fail("mj_resetDataKeyframe: mocap_pos", k);
+    for (int j = 0; j < 4*M.nmocap; j++) if (B.mocap_quat[j] != M.key_mquat[k*4*M.nmocap + j]) return fail("mj_resetDataKeyframe: mocap_quat", k);
+    for (int j = 0; j < M.nu; j++) if (B.ctrl[j] != M.key_ctrl[k*M.nu + j]) return fail("mj_resetDataKeyframe: ctrl", k);
+  }
+  return 0;
+}
+'''
+
+
+def native_contract_run(open_obligations):
+    lib, d = native.build_so('c26run', [FILE, 'src/engine/engine_util_blas.c', 'src/engine/engine_io.c', 'src/engine/engine_util_misc.c'],
+                            HARNESS + gen_reference_c() + NATIVE_RUN, extra_cflags=['-O1'])
+    try:
+        bad = lib.vf_contract_run()
+        if not bad:
+            return {'reproduced': False, 'explored': 'all 16384 signatures on one small model: no failure'}
+        sig = ctypes.c_int.in_dll(lib, 'vf_sig').value
+        what = ctypes.create_string_buffer(128)
+        ctypes.memmove(what, ctypes.addressof(ctypes.c_char.in_dll(lib, 'vf_what')), 128)
+        return {'reproduced': True, 'name': 'state_api', 'input': {'sig_or_key': sig, 'model_sizes': 'nq=3 nv=2 na=1 nhistory=4 nu=2 nbody=2 neq=3 nmocap=1 nuserdata=2 npluginstate=3'},
+                'observed': what.value.decode(), 'open_obligations': open_obligations[:20]}
+    finally:
+        native.cleanup(d)
+
+
 def main():
     chk = Check('C26')
+    chk.native_fallback = native_contract_run
     C = state.CONTRACTS
     chk.unit('src/engine/engine_util_blas.c', 'mju_copy', C, 'math', 'opaque')
     for fn in ('mj_stateSize', 'mj_getState', 'mj_setState', 'mj_copyState', 'mj_extractState'):
@@ -79,6 +183,16 @@ def main():
     chk.unit('verif:shims/c26_client.c', 'c26_roundtrip', C, 'math', 'opaque', abspath=shim)
     chk.assumptions.add('IEEE fact used by the round-trip lemma only: (mjtNum)0 == 0.0 and (mjtNum)1 != 0.0')
     bounded_extract(chk)
+    # the native contract run doubles as a bounded stand-in on every run (never counted as proved)
+    t0 = time.time()
+    from vlib.report import run_isolated
+    r = run_isolated(lambda n, m, o: native_contract_run([]), '', None, None, timeout=600, crash_is_failure=False)
+    chk.bounded.append({'what': 'state API vs reference serialiser generated from the documented table; keyframe store/load',
+                        'bound': 'one small model, all 16384 signatures, 3 keyframes; real compiled code', 'result': r,
+                        'wall_s': round(time.time() - t0, 1), 'counted_as_proved': False})
+    if r and r.get('reproduced'):
+        chk.native_fallback = None
+        chk.external('bounded/native_contract_run', False, 'native-exhaustive(bounded)', time.time() - t0, detail=str(r), model=r)
     chk.assumptions.add('model invariant: all size fields >= 0 and <= 2^24 (so no int sum of state sizes overflows); '
                         'the 13 component arrays of mjData are distinct objects with the lengths of the documented table')
     return chk.finish()
